@@ -18,6 +18,21 @@ EXTRA_OPS = ["from_entries", ".a | from_entries", ".[] | from_entries", "with_en
              ".a[1:]", ".a[:1]", ".[0:2]", "with_entries(select(.key == \"a\"))"]
 
 
+def per_doc_repeat(base, out):
+    """a stream: every document printed a whole number of times (once per value bound to $x), in order"""
+    bd, od = base.split(b"\n---\n"), out.split(b"\n---\n")
+    if len(bd) < 2 or len(bd) != len(od):
+        return False
+    for i, (b, o) in enumerate(zip(bd, od)):
+        b2 = b if b.endswith(b"\n") or i == len(bd) - 1 else b + b"\n"
+        o2 = o if o.endswith(b"\n") or i == len(od) - 1 else o + b"\n"
+        unit = b2 if b2.endswith(b"\n") else b2 + b"\n"
+        txt = o2 if o2.endswith(b"\n") else o2 + b"\n"
+        if len(unit) == 0 or len(txt) % len(unit) != 0 or unit * (len(txt) // len(unit)) != txt:
+            return False
+    return True
+
+
 MERGE_FLAGS = ["", "+", "d", "?", "n", "+d", "+?", "+n", "d?", "dn", "?n", "+d?", "+dn", "+?n", "d?n", "+d?n"]
 
 
@@ -71,10 +86,12 @@ def run(chk):
     docs += [[{"key": "a"}, {"key": "b", "value": 1}], {"a": [{"key": "k"}], "b": [{"value": 1}]}, [{"key": "a", "value": None}, {}],
              {"a": [{"key": "x", "value": 2}, {"key": "y"}]}, [{"k": 1}, {"key": 5, "value": 6}]]
     tcases = []
+    pcases = []
     for d in docs:
         for op in (EXTRA_OPS if thorough else EXTRA_OPS[:5] + chk.rng.sample(EXTRA_OPS[5:], 22)):
             for wrap in ("(%s) as $x | .", "[.. | select(%s)], .", "(.. | %s) as $x | ."):
                 tcases.append(((wrap % op), d))
+            pcases.append((("(%s) as $x | [.. | path]" % op), d))
     timpl = evalcheck.impl_eval(tcases)
     for (expr, d), b in zip(tcases, timpl):
         res = evalcheck.results_of(b)
@@ -87,12 +104,26 @@ def run(chk):
         if bad and len(chk.violations) < 8:
             chk.violation({"kind": "eval", "expr": expr, "doc": d, "impl": b.decode("utf-8", "replace"), "expect_doc": want.decode("utf-8", "replace")},
                           True, "evaluating an assignment-free expression changed the input document: " + expr)
+    # ... and the nodes of the document still report the positions they have (nothing was re-parented)
+    pimpl = evalcheck.impl_eval(pcases)
+    for (expr, d), b in zip(pcases, pimpl):
+        res = evalcheck.results_of(b)
+        if res is None or not res:
+            continue
+        want = evalcheck.ser([list(p_) for p_ in evalgen.doc_paths(d)])
+        chk.count((expr, json.dumps(d)), nontrivial=True)
+        if any(r != want for r in res) and len(chk.violations) < 8:
+            chk.violation({"kind": "eval", "expr": expr, "doc": d, "impl": b.decode("utf-8", "replace"), "expect": (b"OK\n" + want + b"\n").decode("utf-8", "replace")},
+                          True, "evaluating an assignment-free expression changed where the document's nodes say they are: " + expr)
     # ---- YAML documents with anchors, aliases, merge keys, non-string keys: the document must print as `.` prints it
     ydocs = ["a: &x {k: 1}\nb: *x\n", "a: &x {k: 1}\nb: {<<: *x, c: &y [1, 2]}\nd: *y\n", "- &a [1, 2]\n- *a\n- {m: *a}\n",
              "base: &b {k: 1}\nlist: [*b, {k: 2}, *b]\nrecs:\n  - {id: 1, cfg: {ref: *b}}\n  - {id: 2, cfg: {ref: *b}}\n  - id: 3\n    cfg:\n      <<: *b\n      extra: true\n",
              "base: &x {k: ~, keep: 1}\na: {m: *x, n: ~, l: [1, *x]}\nb: {m: {k: 2, j: 3}, n: 5, l: [{k: 9}, {j: 1}, 3]}\n",
+             "base: &b {k: 1, opts: &o {x: 1, l: &l [1, 2]}}\nsvc: {cfg: *b, log: *o, l: *l}\nother: [*b, {<<: *o}]\n",
+             "a: 1\n---\nb: &x [1]\nc: *x\n---\n- 3\n",
              "1: x\ntrue: y\n~: z\n", "a: !!str 1\nb: !custom v\nc: 'q'\n", "a: # c\n  - 1 # one\n  - 2\n"]
-    yops = EXTRA_OPS + ["unique_by(.cfg)", "group_by(.cfg)", "sort_by(.cfg)", "unique_by(.)", "group_by(.)", "sort_by(.)", "map(.cfg)"] + [".a *%s .b" % fl for fl in MERGE_FLAGS] + [".b *%s .a" % fl for fl in MERGE_FLAGS[::3]] + ["to_json", "@json", "to_props", "to_yaml", "@yaml", "tojson", "to_xml", "to_csv", "to_tsv"]  # explode is an in-place operator, so it is outside the property
+    yops = EXTRA_OPS + ["unique_by(.cfg)", "group_by(.cfg)", "sort_by(.cfg)", "unique_by(.)", "group_by(.)", "sort_by(.)", "map(.cfg)", "[.]", "[., .]", "{\"k\": .}", "[.] | .[0]", "[.. | select(tag == \"!!map\")] | length",
+                        "select(to_json | test(\"x\"))", ".. | select(tag == \"!!map\") | to_json", ".svc.cfg | to_json", ".svc | to_props", ".other | @json"] + [".a *%s .b" % fl for fl in MERGE_FLAGS] + [".b *%s .a" % fl for fl in MERGE_FLAGS[::3]] + ["to_json", "@json", "to_props", "to_yaml", "@yaml", "tojson", "to_xml", "to_csv", "to_tsv"]  # explode is an in-place operator, so it is outside the property
     yreq, ymeta = [], []
     for y in ydocs:
         yreq.append({"op": "eval", "expr": ".", "input": y, "in": "yaml", "out": "yaml"})
@@ -114,7 +145,7 @@ def run(chk):
         out = vlib.b64d(r["out_b64"])
         nyaml += 1
         chk.count(("yaml", ex, y), nontrivial=True)
-        if out and out != base[y] and not (base[y] * (len(out) // max(1, len(base[y]))) == out) and len(chk.violations) < 8:
+        if out and out != base[y] and not (base[y] * (len(out) // max(1, len(base[y]))) == out) and not per_doc_repeat(base[y], out) and len(chk.violations) < 8:
             chk.violation({"kind": "yaml", "expr": ex, "yaml": y, "impl": out.decode("utf-8", "replace"), "expect": base[y].decode("utf-8", "replace")}, True,
                           "evaluating an assignment-free expression changed how the document prints: " + ex)
     chk.extra["yaml_alias_cases"] = nyaml
